@@ -18,27 +18,38 @@ CLAIM_TEXT = {
             '4 V1, K1'),
     'C04': ('absence of overflow, out-of-bounds, bad str slicing, failed unwrap / unreachable and non-termination in every '
             'function under contract: Verus units unbounded (V1 string writer, V3 recursion counter, V4 slices, V5 '
-            'Datetime::from_str, V6 date-time printer, V7 secfrac closure), Kani units for their stated fixed input widths.', '4, 5 C04'),
+            'Datetime::from_str, V6 date-time printer, V7 secfrac closure, V9 hex-escape closures, V10 Display for TomlError, '
+            'V11 date-time assembly), Kani units for their stated fixed input widths (K8q/K8t: translate_position).', '4, 5 C04'),
     'C11': ('Kani, complete over the full machine domain: the float overflow guard (closure extracted from fn float each '
             'run) rejects both infinities and no finite value; u64/i128/u128 -> i64 conversions of every serializer/visitor '
             'and narrowing on input are exact or an error for every value. Verus (V8): every integer-literal base goes '
-            'through the checked signed conversion (under an assumed from_str_radix contract).', '4 K6 K7 V8'),
+            'through the checked signed conversion (under an assumed from_str_radix contract); V12: a float literal is '
+            'str::parse::<f64> of its text without underscores. f64/f32/bool pass both serializers and the visitors bit for bit '
+            '(K6). K11f (bounded: representatives): nan / -nan / 0.0 / -0.0 of the f64 and f32 writers.', '4 K6 K7 V8 V12 K11f'),
     'C01': ('decided slices only: every byte class (complete), every 2-digit date/time field range and the calendar rule, '
             'hex-escape scalar range (thorough), float overflow guard with either sign, integer literals beyond i64 '
-            'rejected in every base (V8, assumed from_str_radix). Composition of productions is not decided.',
+            'rejected in every base (V8, assumed from_str_radix), the one-letter escape table and hex-escape closures (V9), '
+            'first-byte dispatch of values / newlines / document lines / keys = the ABNF alternatives (V3, V16). Composition of '
+            'productions is not decided.',
             '5 C01'),
     'C02': ('value of each 2/4-digit date-time field of the document grammar (per fixed width); fractional seconds '
             'truncated to nanoseconds for every digit string (V7, document grammar; V5, standalone parser); every field of '
-            'the standalone parser for every string (V5); integer literal values (V8); hex escapes (thorough).', '5 C02'),
+            'the standalone parser for every string (V5); integer literal values (V8); float literal conversion (V12); escapes '
+            '(V9; K5 in situ, thorough); date-time assembly (V11); CRLF -> LF, line-ending backslash, escapes in string values '
+            '(V15); scalars on the tree -> serde step (K6t, K6d).', '5 C02'),
     'C05': ('recursion counter contract (Verus, unbounded): limit <= 128, enter/exit balance, limit enforced exactly at the '
-            'bound; Kani: check_recursion leaves the counter balanced.', '4 V3'),
+            'bound, dotted-key depth check, value() enters arrays and inline tables through check_recursion (dispatch table); '
+            'Kani: check_recursion leaves the counter balanced.', '4 V3'),
     'C12': ('Verus, unbounded: Datetime::from_str accepts exactly the date-time grammar and yields its fields on EVERY '
             'string (V5); the printer emits, for every well-formed value, text the grammar accepts with that same value '
             '(V6), hence print-then-parse is the identity; calendar rule and range checks of both parsers (V4); document '
-            'secfrac truncation (V7). Kani: the same standalone contract in situ per input width (K3), document-grammar '
-            'field parsers (K2).', '4 V4 V5 V6 V7 K2 K3'),
-    'C14': ('serde span bridge delivers (start, end, value) unswapped for every span and value (Kani, loop-free, complete).',
-            '4 K11'),
+            'secfrac truncation (V7); assembly of the parsed parts in the document grammar (V11). Kani: the same standalone '
+            'contract in situ per input width (K3), document-grammar field parsers (K2).', '4 V4 V5 V6 V7 V11 K2 K3'),
+    'C14': ('serde span bridges (value -> Spanned<i64>, key -> Spanned<String>) deliver (start, end, value) unswapped for every '
+            'span and value; apply_raw records exactly the span it is given on every kind of value (Kani, loop-free, complete); '
+            'toml::de hands the parser exactly the caller\'s text (V14). Bounded, never counted as proved: RawString / despan on '
+            '4-byte inputs and empty containers (K14r, K14d), table span bookkeeping for one plain key / one header (K14s).',
+            '4 K11 K14 V14'),
     'C15': ('Display for TomlError never panics and prints line + 1 / column + 1 of the span start with the caret under that '
             'column, for every error value (Verus V10, unbounded, UNDER the contract of translate_position); '
             'translate_position == (line, char column) spec with clamping is itself only checked for every valid UTF-8 input up '
@@ -53,12 +64,14 @@ NOTE = {
     'C04': 'only functions under contract; document parser as a whole, Debug, Drop, serde are outside the claim.',
     'C11': 'assumed: str::parse::<f64> returns +-inf exactly on overflow; float printing not decided.',
     'C01': 'assumed: winnow combinators; composition of productions, cut_err placement, table-definition rules not decided.',
-    'C02': 'floats (std dec2flt), multi-line trimming, key order, tree shape not decided.',
+    'C02': 'floats rest on std dec2flt (named, trusted); combinator plumbing between the closures (which bytes a line-ending '
+           'backslash swallows, quote runs next to the delimiter), key order, tree shape not decided.',
     'C05': 'stack consumption itself is not expressible; multiplicative nesting across constructs not decided.',
     'C12': 'assumed: contracts for Chars::{as_str, clone, nth}, u32::pow, char::is_ascii_digit, &str[range], {:0N} '
            'formatting, trim_end_matches, parse::<u32>; composition of the document grammar date_time production and the '
            'serde date-time tunnel not decided.',
-    'C14': 'span production inside the parser and despan are tree-level and not decided.',
+    'C14': 'that the span handed to apply_raw is the value\'s text (with_span sites), dotted keys / arrays of tables in state.rs, '
+           'child-inside-parent nesting and recursive despan are not decided; IndexMap RandomState stubbed in Kani.',
     'C15': 'translate_position: bounded input length (K8), its contract is assumed by V10; core::fmt effects of write!, usize '
            'Display, str::split/nth, [String]::join are assumed contracts; TomlError invariant (span ordered, inside the '
            'stored source) assumed of the constructors; message non-empty, span on character boundaries and the serde-side '
